@@ -128,6 +128,11 @@ def property_checks(p):
             resid = numpy.abs(Fm @ Sig @ Fm.T + Gm @ Gm.T - Sig).max() / Sig.max()
             cond = numpy.linalg.cond(Czz)
             A(("von Karman covariance is a fixed point of the row recursion%s" % tag, float(resid), 3e-7 * cond + 1e-5))
+            # the same on the covariance the screen itself holds (binary32 values; equal separations give equal entries, so
+            # translation invariance is exact and only the float64 factorisation errors remain)
+            So = numpy.asarray(s.cov_mat_zz, dtype=float)
+            ro = numpy.abs(Fm @ So @ Fm.T + Gm @ Gm.T - So).max() / So.max()
+            A(("the screen's own stencil covariance is a fixed point of the row recursion%s" % tag, float(ro), 1e-12 * numpy.linalg.cond(So) + 1e-9))
             rho = float(numpy.max(numpy.abs(numpy.linalg.eigvals(Fm))))
             A(("row recursion is stable (spectral radius < 1)%s" % tag, rho, 1.0 - 1e-9))
     return out
@@ -140,6 +145,10 @@ def falsify(ctx, deep=False):
     for k in range(n):
         p = ic.gen_params(rng, small=not (deep and k % 4 == 0))
         p["data_seed"] = rng.getrandbits(30); p["steps"] = rng.randint(1, 12); p["long"] = (k % 2 == 0); p["family"] = (k % 3 == 0)
+        if k == 2:
+            p.update({"kind": "vk", "nx": 8, "ps": 1, "r0": 1.0, "L0": 20.0, "extra": 1, "family": False})       # integer pixel scale
+        if k == 3:
+            p.update({"kind": "fried", "nx": 6, "ps": 2, "r0": 1.5, "L0": 30.0, "extra": 2, "family": False})
         if k == 1:
             # near the edge of what the Cholesky factorisation accepts (huge outer scale in pixels): known finding
             p.update({"kind": "vk", "nx": 8, "ps": 0.05, "r0": 0.1, "L0": 2000.0, "extra": 2, "family": False})
